@@ -12,7 +12,7 @@ import os
 import subprocess
 import sys
 
-WT = "/tmp/wt/mine"
+WT = os.environ.get("SEED_WT", "/tmp/wt/mine")
 VERIF = os.path.dirname(os.path.dirname(os.path.abspath(__file__)))
 
 # (property, file, old, new, what)   -- 'old' must occur exactly once in the file unless count is given
@@ -174,7 +174,7 @@ def main():
             t = sh("cd %s && PYTHONPATH=%s /venv/bin/python -B -m pytest -q -x -p no:cacheprovider test 2>&1 | tail -1" % (WT, WT), timeout=900)
             suite = t.stdout.strip()
             rec["suite"] = suite
-            env = dict(os.environ, VERIF_REPO=WT)
+            env = dict(os.environ, VERIF_REPO=WT, VERIF_OUT=os.environ.get("VERIF_OUT", "/tmp/seeded_out"))
             r = subprocess.run([os.path.join(VERIF, "vf"), prop, "quick"], capture_output=True, text=True, env=env, timeout=1800)
             viol = [l for l in r.stdout.splitlines() if l.startswith("VIOLATION")]
             rec["check_exit"] = r.returncode
